@@ -119,7 +119,7 @@ theorem liability_backed_partial {N : Nat} {s s' : State} {op : Op} (g : Good N 
   | update k c value size ext add rem rw cc dp ds => exact update_backed_partial h hn g
   | commit k i size move => exact commit_backed h g
   | respPass k i D m V dp cr => exact respPass_backed h g
-  | close fin k c X per => exact close_backed h g
+  | close fin k c X per rates => exact close_backed h g
   | wpLock k j v => exact wpLock_backed h g
   | rpLock j v => exact rpLock_backed h hb g
   | rpUnlock j v => exact rpUnlock_backed h g
